@@ -26,6 +26,7 @@ ENGINES = [
     ("c11s", 5000, False),
     ("c11d", 2000, False),
     ("c11c", 2000, False),
+    ("c11e", 2000, False),
     ("c20", 1500, False),
     ("c20s", 500, False),
     ("trace", 1500, False),
